@@ -1327,6 +1327,21 @@ fn shared_store_cases(prop: &str, rng: &mut Rng, quick: bool, st: &mut Stats, c:
             st.bump("metadata_holding_json_texts");
         }
     }
+    // a run of duplicates directly followed by an entry stored exactly one / two / three lengths behind the run's content,
+    // and a re-saved archive from which a tile between two copies was removed (equal lengths throughout)
+    {
+        let (a, b, d) = ("a1a2a3a4", "b1b2b3b4", "d1d2d3d4");
+        for (k, ops) in [
+            format!("c:none;a:1:{a};a:2:{b};a:3:{a};a:4:{a};a:5:{d}"),
+            format!("c:none;a:1:{a};a:2:{b};a:3:{d};a:4:{a};a:5:{a};a:6:{a};a:7:{b};a:8:{d}"),
+            format!("a:1:{a};a:2:{b};a:3:{d};a:4:{a};a:5:{b};s:{{M}}:{{M}};r:2"),
+            format!("c:none;a:1:{a};a:2:{b};a:3:{d};a:4:{a};a:5:{b};s:{{M}}:{{M}};r:2;a:9:{b}"),
+            format!("c:none;a:1:{a};a:2:{b};a:3:{d};s:{{M}}:{{M}};r:1;a:4:{a};a:5:{b};a:6:{b}"),
+        ].iter().enumerate() {
+            push(c, k, ops.clone(), None);
+            st.bump("equal_length_contents_runs_and_neighbours");
+        }
+    }
     // equal contents whose ids are exactly 2^32 + run apart
     for (k, (dist, run)) in [(1u64 << 32, 3u64), (1 << 32, 1), (2 << 32, 2)].iter().enumerate() {
         let ca = "0a0b0c0d0e";
